@@ -658,6 +658,17 @@ def stepAll (d : DW) (line : String) : DW × String :=
        let (m', o) := mv.step j m
        ({ d with menv := some m' }, s!"act {j} {m} {fmtStepOut m'.env.w.cfg.I o}")
      | _, _ => (d, "bad-op"))
+  | ["mbad", k, b] => (match d.menv, k.toNat?, b.toNat? with
+     | some mv, some k, some b =>
+       -- the k-th ILLEGAL decision in canonical order: jobs 0 … J (one beyond the instance), machine ids -2 … b
+       let J := mv.env.w.cfg.I.length
+       let cands := (List.range (J + 1)).flatMap fun j =>
+         ((List.range (b + 3)).map fun (i : Nat) => (Int.ofNat i - 2)).filterMap fun (m : Int) =>
+           if mv.env.legal j m then none else some (j, m)
+       let (j, m) := cands.getD (k % cands.length) (0, -2)
+       let (m', o) := mv.step j m
+       ({ d with menv := some m' }, s!"bad {j} {m} {fmtStepOut m'.env.w.cfg.I o}")
+     | _, _, _ => (d, "bad-op"))
   | "menv" :: rest =>
     (match splitOnTok rest ";" with
      | ps :: more =>
